@@ -9,6 +9,7 @@ mod model;
 mod pipeline;
 mod probe;
 mod runner;
+mod store;
 mod tape;
 mod util;
 
